@@ -36,7 +36,31 @@ def check(F, rep, tier):
             for place, val, raw in sp.writes:
                 if val[0] == "agg" and val[1] == "array":
                     got = [mir.show(v).rsplit("::", 1)[-1] for f_, v in val[2]]
+        def array_in(g_):
+            for pth in mir.enum_paths(g_)[:1]:
+                spx = mir.SymPath(g_, pth)
+                r_ = spx.ret()
+                if r_[0] == "agg" and r_[1] == "array": return [mir.show(v).rsplit("::", 1)[-1] for f_, v in r_[2]]
+                for place, val, raw in spx.writes:
+                    if val[0] == "agg" and val[1] == "array": return [mir.show(v).rsplit("::", 1)[-1] for f_, v in val[2]]
+            return None
+        if got is None:
+            # `const LEVELS: [Precedence; 11] = [..]; from_precedences(LEVELS.to_vec())`: the array lives in a constant item
+            names = set()
+            for bi, si, st in pb.stmts():
+                if st[0] == "=" and st[2][0] == "use" and st[2][1][0] == "c":
+                    c_ = st[2][1][1]
+                    if c_.get("k") == "promoted":
+                        v_ = mir.promoted_value(F, c_)
+                        if v_ is not None and v_[0] == "constx": names.add(v_[1])
+                        pf = F.fn("%s::promoted[%d]" % (c_["of"], c_["idx"]))
+                        if pf is not None and array_in(pf): got = array_in(pf)
+                    elif c_.get("named"): names.add(c_["named"])
+            for nme in sorted(names):
+                cf = F.fn(nme)
+                if cf is not None and got is None: got = array_in(cf)
         if got == ORDER: rep.ok("R05.1", "default precedence order is the documented one", sample=got, nontrivial_key="order")
+        elif got is None: rep.undecided("R05.1", "precedence-order-shape", "how the default precedence order is written down is not recognised", pb.where())
         else: rep.bad("R05.1", "precedence-order", "default precedence order is %s, documented order is %s" % (got, ORDER), pb.where())
         d = zfn(F, "PrecedenceOrder as std::default::Default>::default")
         if d is not None:
@@ -92,16 +116,17 @@ def check(F, rep, tier):
         f = mir.inlined(F, f, depth=2, keep=("reset_lower_precedence_components", "checked_bump"), ok=lambda F_, caller, cp, g: g is not None and g.kind != "closure" and cp.startswith(B))
         probs = []
         npaths = 0
-        for p in mir.enum_paths(f, limit=5000):
+        for p in mir.enum_paths(f, limit=20000):
             if f.blocks[p[-1]]["t"][0] != "ret": continue
             sp = mir.SymPath(f, p)
+            if not sp.feasible(): continue          # e.g. the helper returned Ok(false) but the caller's `if` is taken
             if sp.ret()[0] == "call" and "from_residual" in str(sp.ret()[1]): continue
             npaths += 1
             ov = bm = None
             for d, (rel, vals), b in sp.conds:
                 if d[0] == "discr" and d[1] == ("param", 2): ov = (rel == "eq" and 1 in vals) or (rel == "ne" and 0 in vals and 1 not in vals)
                 if d[0] == "discr" and d[1] == ("param", 3): bm = (rel == "eq" and 1 in vals) or (rel == "ne" and 0 in vals and 1 not in vals)
-            writes = [(mir.show(pl), mir.show(val)) for pl, val, raw in sp.writes if raw[0] == 1]
+            writes = [(mir.show(pl), mir.show(val)) for pl, val, raw in sp.writes if raw[0] == 1 or mir.show(pl).startswith("p1.vars.")]
             for pl, val in writes:
                 if pl != "p1.vars." + fld: probs.append("writes %s" % pl)
             n_ov = [v for pl, v in writes if "p2" in v]
@@ -351,9 +376,20 @@ def check(F, rep, tier):
     if n_unchecked == 0: rep.ok("R05.8", "no unchecked addition in version::zerv::bump", nontrivial_key="noadd")
     if cb is not None:
         rep.fn_seen(cb)
-        if any("checked_add" in (mir.callee(t) or "") for bi, t in cb.calls()) and any("ok_or" in (mir.callee(t) or "") for bi, t in cb.calls()):
-            rep.ok("R05.8", "checked_bump = checked_add(..).ok_or_else(error)", nontrivial_key="cb")
-        else: rep.bad("R05.8", "checked-bump-body", "checked_bump does not use checked_add + error", cb.where())
+        has_ca = any("checked_add" in (mir.callee(t) or "") for bi, t in cb.calls())
+        to_err = any("ok_or" in (mir.callee(t) or "") for bi, t in cb.calls())
+        if has_ca and not to_err:
+            # `match a.checked_add(b) { Some(v) => Ok(v), None => Err(..) }`
+            for bi, si, st in cb.stmts():
+                if st[0] == "=" and st[2][0] == "agg" and st[2][1].get("variant") == "Err":
+                    for d, pol, dd in mir.guards_of(cb, bi):
+                        if d[0] == "discr" and "Option<" in str(d[2]) and isinstance(pol, tuple) and (("None" in pol[1]) if pol[0] == "in" else ("Some" in pol[1])):
+                            if any(o.kind == "call" and "checked_add" in (mir.callee(o.fn.blocks[o.data]["t"]) or "") for o in mir.trace_place(cb, d[1], transparent=())): to_err = True
+        bad_arith = [(mir.callee(t) or "").rsplit("::", 1)[-1] for bi, t in cb.calls() if any(x in (mir.callee(t) or "") for x in ("saturating_add", "wrapping_add", "overflowing_add", "unchecked_add"))]
+        if has_ca and to_err and not bad_arith:
+            rep.ok("R05.8", "checked_bump = checked_add(..) with the None case turned into an error", nontrivial_key="cb")
+        elif bad_arith or not has_ca: rep.bad("R05.8", "checked-bump-body", "checked_bump does not use checked_add + error (%s)" % (bad_arith or "no checked_add"), cb.where())
+        else: rep.undecided("R05.8", "checked-bump-shape", "checked_bump uses checked_add; how its None case is handled is not recognised", cb.where())
     return core.finish(rep, explanation=EXPL, assumptions=ASSUME, trusted=TRUST)
 
 def promoted_variant(F, expr):
